@@ -32,6 +32,9 @@ EXPLANATION += (' ' + 'Added after the seeded-change round: FRAME/single-at-zero
 TRUSTED = ['int() and math.floor() agree on the accepted (non-negative) domain', 'protobuf copy semantics']
 NOT_DECIDED = ['monotonicity and stretch invariance of step assignment (floating point)', 'behaviour within a few ulps of a half-step boundary']
 ASSUMPTIONS = []
+# rules whose verdict does not depend on how the statements are arranged (semantic analyses); all other rules are shape rules:
+# when one of those fails in a function that was restructured relative to reference/signatures.json the verdict is "cannot decide"
+ROBUST = ('OWN/write', 'OWN/return', 'FRAME', 'PAIR/total-then-notes')
 FLOORS = {'OWN': 30, 'FRAME': 4, 'ROUND': 3, 'SITE': 5, 'PAIR': 4, 'ESC': 5}
 
 DOCUMENTED = {'MultipleTimeSignatureError', 'MultipleTempoError', 'BadTimeSignatureError', 'NegativeTimeError'}
